@@ -39,7 +39,7 @@ def max_kids(forest):
 
 def cases(tier, rnd):
     out = []
-    n_rand = 60 if tier == "quick" else 400
+    n_rand = 150 if tier == "quick" else 600
     for i in range(n_rand):
         big = tier == "thorough" and i % 4 == 0
         n = rnd.randint(1, 12 if big else 7)
@@ -47,9 +47,14 @@ def cases(tier, rnd):
         G = rnd.randint(2, 30 if big else 8)
         forest, outs = random_canon_tree(rnd, n, outliers=(i % 5 == 0))
         vals = [gen_values(rnd, S, G, bits=rnd.choice([2, 4, 6])) for _ in range(n)]
+        if i % 3 == 0:  # mutations with identical read counts: several data points share one grid
+            for j in range(1, n):
+                if rnd.random() < 0.5:
+                    vals[j] = vals[rnd.randrange(j)]
         out.append({"kind": "exact", "data": DataSet(vals).to_json(), "forest": forest, "outs": outs})
-    for i in range(6 if tier == "quick" else 40):
-        out.append({"kind": "illcond", "seed": rnd.randrange(1 << 30), "G": rnd.choice([5, 11, 40]), "kids": rnd.randint(2, 4)})
+    for i in range(12 if tier == "quick" else 60):
+        out.append({"kind": "illcond", "seed": rnd.randrange(1 << 30), "G": rnd.choice([5, 11, 40]), "kids": rnd.randint(2, 4),
+                    "S": 1 + i % 3, "offset": rnd.choice([0, 150, 800, 900])})
     for G in ([1000] if tier == "quick" else [999, 1000, 1001, 1500]):
         out.append({"kind": "fft", "seed": rnd.randrange(1 << 30), "G": G, "kids": rnd.randint(2, 3)})
     return out
@@ -161,46 +166,52 @@ def check_exact(ctx, case):
 
 
 def check_float(ctx, case, fft):
-    """One clone with `kids` leaf children on a wide-dynamic-range / large grid: float vs high-precision."""
+    """One clone with `kids` leaf children on a wide-dynamic-range / large grid, several samples whose
+    overall scale differs by `offset` nats: float result vs an extended-precision reference."""
     rng = np.random.default_rng(case["seed"])
     G, kids = case["G"], case["kids"]
-    S = 1
+    S = case.get("S", 1)
+    offs = [0.0] + [float(case.get("offset", 0)) * (s % 2) + 10.0 * s for s in range(1, S)]
     vals = []
     for _ in range(kids + 1):
         if fft:
             v = rng.uniform(0.05, 1.0, size=(S, G))
         else:
-            v = np.exp(-rng.uniform(0, 70, size=(S, G)))  # dynamic range ~1e-30
+            v = np.exp(-rng.uniform(0, 70, size=(S, G)))  # dynamic range ~1e-30 within a row
         vals.append(v)
-    data = [DataPoint(i, np.log(v)) for i, v in enumerate(vals)]
+    # per-sample scale offsets are applied in the log domain (a deep sample next to a shallow one)
+    data = [DataPoint(i, np.log(v) - np.array(offs)[:, None]) for i, v in enumerate(vals)]
     t = Tree((S, G))
     ch = [t.create_root_node(children=[], data=[data[i]]) for i in range(1, kids + 1)]
     t.create_root_node(children=ch, data=[data[0]])
     root = t.data_log_likelihood
     if not np.all(np.isfinite(root)):
         ctx.oracle_fail(case, "root likelihood vector not finite", "Tree.data_log_likelihood", "nonfinite")
-    # reference in extended precision (all terms positive: direct convolution is accurate to ~1e-17 relative)
     ld = np.longdouble
     prior = ld(1) / ld(G)
-    R = [vals[i][0].astype(ld) * prior for i in range(1, kids + 1)]
-    D = R[0]
-    peak_prod = ld(1)
-    for r in R[1:]:
-        D = np.convolve(D, r)[:G]
-    Sx = np.cumsum(D)
-    node_r = vals[0][0].astype(ld) * prior * Sx
-    exact_root = np.cumsum(node_r) * prior
-    code = np.exp(root[0].astype(ld))
-    peak = exact_root.max()
     floor = 1e-6 if fft else 1e-80
     rel = 1e-6 if fft else 1e-8
-    mask = exact_root >= floor * peak
-    err = np.abs(code[mask] - exact_root[mask]) / exact_root[mask]
-    ctx.stat("float_entries_checked", int(mask.sum()))
-    if err.size and float(err.max()) > rel:
-        ctx.oracle_fail(case, f"root vector off by relative {float(err.max()):.2e} above the floor", "tree.utils._convolve_two_children", "accuracy")
-    if not fft and np.any(code < exact_root * (1 - 1e-8)):
-        ctx.oracle_fail(case, "reported value below the exact one on the direct path", "tree.utils._np_conv_dims", "below-exact")
+    for s in range(S):
+        # reference in extended precision on the unscaled row (all terms positive: direct
+        # convolution is accurate to ~1e-17 relative); the scale re-enters as (kids+1)*offset in logs
+        R = [vals[i][s].astype(ld) * prior for i in range(1, kids + 1)]
+        D = R[0]
+        for r in R[1:]:
+            D = np.convolve(D, r)[:G]
+        node_r = vals[0][s].astype(ld) * prior * np.cumsum(D)
+        exact_root = np.cumsum(node_r) * prior
+        code = np.exp((root[s] + (kids + 1) * offs[s]).astype(ld))
+        peak = exact_root.max()
+        mask = exact_root >= floor * peak
+        err = np.abs(code[mask] - exact_root[mask]) / exact_root[mask]
+        ctx.stat("float_entries_checked", int(mask.sum()))
+        if err.size and float(err.max()) > rel:
+            ctx.oracle_fail(case, f"sample {s}: root vector off by relative {float(err.max()):.2e} above the floor",
+                            "tree.utils._convolve_two_children", "accuracy")
+            break
+        if not fft and np.any(code < exact_root * (1 - 1e-8)):
+            ctx.oracle_fail(case, f"sample {s}: reported value below the exact one on the direct path", "tree.utils._np_conv_dims", "below-exact")
+            break
     ctx.done(case, nontrivial=True, sample=case)
 
 
